@@ -104,6 +104,16 @@ package dsl
 //@   requires ast != nil
 //@   invariant 1: t != nil
 //@   ensures result != nil
+// C04: the schema text must tell apart what is encoded differently. A fixed-size array (lengths given) is written
+// without a shape, an array of known rank with one, and named dimensions are part of the model: the compact spelling
+// of `dimensions` (just the rank) is used only when no dimension carries a name or a length.
+//@ observe-args encoding/json.Marshal
+//@ func (ArrayDimensions).MarshalJSON
+//@   property C04
+//@   invariant 0: forall k in 0..rangeindex+1 :: (dims[k].Name == nil && dims[k].Length == nil)
+//@   ensures rank_only_spelling_has_no_names_or_lengths: typeof(lastArg("encoding/json.Marshal", 0)) == int ==> (forall k in 0..len(dims) :: (dims[k].Name == nil && dims[k].Length == nil))
+//@   ensures rank_only_spelling_gives_the_rank: typeof(lastArg("encoding/json.Marshal", 0)) == int ==> lastArg("encoding/json.Marshal", 0).(int) == len(dims)
+
 // A shorthand tail is only another spelling of the expanded form (C13): `T?` is [null, T]; `K->V` is !map {keys: K,
 // values: V}; `T*` / `T*N` is !vector {items: T} / {items: T, length: N} - a written length, zero included, makes
 // the vector fixed exactly as `length:` does; `T[..]` is !array with the written dimensions in the written order.
